@@ -418,12 +418,13 @@ class WsgiApplication(HttpBase):
 
         self.get_out_string(p_ctx)
 
+        self.event_manager.fire_event('wsgi_exception', p_ctx)
+
         # consume the generator to get the length
         p_ctx.out_string = list(p_ctx.out_string)
 
         p_ctx.transport.resp_headers['Content-Length'] = \
                                     str(sum((len(s) for s in p_ctx.out_string)))
-        self.event_manager.fire_event('wsgi_exception', p_ctx)
 
         start_response(p_ctx.transport.resp_code,
                                 _gen_http_headers(p_ctx.transport.resp_headers))
